@@ -53,7 +53,9 @@ pub fn write(
     config: &mut MinidumpWriter,
     buffer: &mut DumpBuf,
 ) -> Result<MDRawDirectory, errors::SectionHandleDataStreamError> {
-    let proc_fd_path = PathBuf::from(format!("/proc/{}/fd", config.process_id));
+    // The descriptor table is shared by the threads of the process. It is listed through the
+    // blamed thread: the initial thread may have exited, and its table then reads as empty.
+    let proc_fd_path = PathBuf::from(format!("/proc/{}/fd", config.blamed_thread));
     let proc_fd_iter = fs::read_dir(proc_fd_path)?;
     let descriptors: Vec<_> = proc_fd_iter
         .filter_map(|entry| entry.ok())
